@@ -5,6 +5,7 @@ import AbacusVerif.Model.C08
 import Mathlib.Data.Rat.Floor
 import Mathlib.Algebra.BigOperators.Group.Finset.Basic
 import Mathlib.Algebra.BigOperators.Ring.Finset
+import Mathlib.Algebra.BigOperators.Group.Finset.Sigma
 import Mathlib.Tactic.Ring
 import Mathlib.Tactic.Linarith
 
@@ -108,7 +109,7 @@ theorem hermitian_sum {R : Type} [CommSemiring R] (n : Nat) (hn : 1 ≤ n) (G : 
 theorem lead_le_length (x : Rat) (l : List Rat) : lead x l ≤ l.length := by
   induction l with
   | nil => simp [lead]
-  | cons v t ih => unfold lead; split <;> simp <;> omega
+  | cons v t ih => unfold lead; split <;> simp; omega
 
 /-- every edge before the bin is strictly below `x` -/
 theorem lead_before (x : Rat) (l : List Rat) (t : Nat) (ht : t < lead x l) (h : t < l.length) :
@@ -186,6 +187,21 @@ theorem getE_last (e : List Rat) (h : e ≠ []) : getE e (-1) = .ok (e.getLast h
   have h1 : e.length - 1 < e.length := by omega
   simp [List.getElem?_eq_getElem h1, List.getLast_eq_getElem]
 
+/-- `search` is the `while` loop: one read of `e[b+1]` (fault if outside), then stop or advance -/
+theorem search_unfold (e : List Rat) (x : Rat) (b : Nat) :
+    search e x b =
+      if h : b + 1 < e.length then
+        if e[b + 1] < x then search e x (b + 1) else .ok b
+      else .error .oob := by
+  unfold search
+  cases hf : e.length - b with
+  | zero =>
+    have : ¬ b + 1 < e.length := by omega
+    simp [searchAux, this]
+  | succ f =>
+    have : e.length - (b + 1) = f := by omega
+    rw [searchAux, this]
+
 /-- from any start at or below the bin, the search stops exactly at the bin -/
 theorem search_eq_lead (a : Rat) (t : List Rat) (x : Rat) (b : Nat)
     (hb : b ≤ lead x t) (hl : lead x t < t.length) : search (a :: t) x b = .ok (lead x t) := by
@@ -193,14 +209,14 @@ theorem search_eq_lead (a : Rat) (t : List Rat) (x : Rat) (b : Nat)
   | zero =>
     have hbe : b = lead x t := by omega
     subst hbe
-    rw [search]
+    rw [search_unfold]
     have h1 : lead x t + 1 < (a :: t).length := by simpa using hl
     have h2 := lead_at x t hl
     simp only [h1, ↓reduceDIte, List.getElem_cons_succ]
     rw [if_neg (not_lt.mpr h2)]
   | succ d ih =>
     have hlt : b < lead x t := by omega
-    rw [search]
+    rw [search_unfold]
     have h1 : b + 1 < (a :: t).length := by simp; omega
     have h2 := lead_before x t b hlt (by omega)
     simp only [h1, ↓reduceDIte, List.getElem_cons_succ]
@@ -212,11 +228,11 @@ theorem search_inbounds (e : List Rat) (x : Rat) (b r : Nat) (h : search e x b =
     r + 1 < e.length ∧ b ≤ r := by
   induction hd : e.length - b generalizing b with
   | zero =>
-    rw [search] at h
+    rw [search_unfold] at h
     have : ¬ b + 1 < e.length := by omega
     simp [this] at h
   | succ d ih =>
-    rw [search] at h
+    rw [search_unfold] at h
     by_cases h1 : b + 1 < e.length
     · simp only [h1, ↓reduceDIte] at h
       by_cases h2 : e[b + 1] < x
@@ -261,5 +277,597 @@ theorem mu2_mono (p : Nat) {k k' : Nat} (h : k ≤ k') : mu2 p k ≤ mu2 p k' :=
   · have : mu2 p k = 0 := by unfold mu2; rw [if_neg h0]
     rw [this]
     exact mu2_nonneg p k'
+
+/-! ### the `kz` loop of `bin_kmu` against the convention -/
+
+theorem classify_cons (a : Rat) (t : List Rat) (x : Rat) :
+    classify (a :: t) x =
+      if a ≤ x ∧ x < (a :: t).getLast (List.cons_ne_nil a t) then some (lead x t) else none := by
+  unfold classify
+  rw [List.getLast?_eq_some_getLast (List.cons_ne_nil a t)]
+  simp
+
+theorem touch_ok (sh : Shape) (nb nm i j k b m : Nat) (hb : b < nb) (hm : m < nm)
+    (hi : i < sh.s0) (hj : j < sh.s1) (hk : k < sh.s2) : touch sh nb nm i j k b m = .ok () := by
+  simp [touch, idx, pyIndex_nonneg hb, pyIndex_nonneg hm, pyIndex_nonneg hi, pyIndex_nonneg hj,
+    pyIndex_nonneg hk, bind, Except.bind]
+
+/-- what the specification says about the half-mesh cell `(i, j, k)`, `p = i2 + j2` -/
+def kzSpec (n : Nat) (ek em : List Rat) (i j p k : Nat) : Option Contrib :=
+  match classify ek ((p + k * k : Nat) : Rat) with
+  | some b => some ⟨i, j, k, p + k * k, b, lead (mu2 p k) em.tail, hw n k⟩
+  | none => none
+
+theorem getLast_mem_tail (a : Rat) (t : List Rat) (x : Rat) (h0 : a ≤ x)
+    (h1 : x < (a :: t).getLast (List.cons_ne_nil a t)) :
+    (a :: t).getLast (List.cons_ne_nil a t) ∈ t := by
+  cases t with
+  | nil => simp at h1; exact absurd h0 (not_le.mpr h1)
+  | cons b t' =>
+    rw [List.getLast_cons (List.cons_ne_nil b t')]
+    exact List.getLast_mem _
+
+theorem qcast_mono (p : Nat) {k k' : Nat} (h : k ≤ k') :
+    ((p + k * k : Nat) : Rat) ≤ ((p + k' * k' : Nat) : Rat) := by
+  have : p + k * k ≤ p + k' * k' := Nat.add_le_add_left (Nat.mul_le_mul h h) p
+  exact_mod_cast this
+
+/-- **two-pointer invariant along `kz`.**  Started at or below the bins of the current cell, the
+loop with its carried `(bk, bmu)`, its `continue` and its `break` never faults and accumulates
+exactly the cells the convention puts in range, each in the bin the convention names. -/
+theorem kzLoop_spec (n : Nat) (a : Rat) (t : List Rat) (a' : Rat) (t' : List Rat) (sh : Shape)
+    (i j p : Nat) (hmu : ∀ x : Rat, x ≤ 1 → lead x t' < t'.length) (hi : i < sh.s0) (hj : j < sh.s1) :
+    ∀ fuel k bk bmu, k + fuel ≤ sh.s2 → bk ≤ lead ((p + k * k : Nat) : Rat) t →
+      bmu ≤ lead (mu2 p k) t' →
+      kzLoop n (a :: t) (a' :: t') sh i j p fuel k bk bmu =
+        .ok ((List.range' k fuel).filterMap (kzSpec n (a :: t) (a' :: t') i j p)) := by
+  intro fuel
+  induction fuel with
+  | zero => intro k bk bmu _ _ _; simp [kzLoop]
+  | succ fuel ih =>
+    intro k bk bmu hk hbk hbmu
+    have hbk' : ∀ b, b ≤ lead ((p + k * k : Nat) : Rat) t → b ≤ lead ((p + (k + 1) * (k + 1) : Nat) : Rat) t :=
+      fun b hb => le_trans hb (lead_mono (qcast_mono p (Nat.le_succ k)) t)
+    have hbmu' : ∀ b, b ≤ lead (mu2 p k) t' → b ≤ lead (mu2 p (k + 1)) t' :=
+      fun b hb => le_trans hb (lead_mono (mu2_mono p (Nat.le_succ k)) t')
+    rw [List.range'_succ, List.filterMap_cons]
+    simp only [kzLoop]
+    rw [getE_zero]
+    simp only []
+    by_cases h0 : ((p + k * k : Nat) : Rat) < a
+    · -- continue
+      rw [if_pos h0]
+      have hnone : kzSpec n (a :: t) (a' :: t') i j p k = none := by
+        unfold kzSpec
+        rw [classify_cons, if_neg]
+        intro hc; exact absurd h0 (not_lt.mpr hc.1)
+      rw [hnone]
+      exact ih (k + 1) bk bmu (by omega) (hbk' bk hbk) (hbmu' bmu hbmu)
+    · rw [if_neg h0, getE_last (a :: t) (List.cons_ne_nil a t)]
+      simp only []
+      by_cases h1 : (a :: t).getLast (List.cons_ne_nil a t) ≤ ((p + k * k : Nat) : Rat)
+      · -- break: every later cell is beyond the last edge too
+        rw [if_pos h1]
+        have hall : ∀ k' ∈ k :: List.range' (k + 1) fuel, kzSpec n (a :: t) (a' :: t') i j p k' = none := by
+          intro k' hk'
+          have hge : k ≤ k' := by
+            rcases List.mem_cons.mp hk' with h | h
+            · omega
+            · have := (List.mem_range'_1.mp h).1; omega
+          unfold kzSpec
+          rw [classify_cons, if_neg]
+          intro hc
+          exact absurd (lt_of_le_of_lt (le_trans h1 (qcast_mono p hge)) hc.2) (lt_irrefl _)
+        have : (k :: List.range' (k + 1) fuel).filterMap (kzSpec n (a :: t) (a' :: t') i j p) = [] :=
+          List.filterMap_eq_nil_iff.mpr hall
+        rw [List.filterMap_cons] at this
+        rw [this]
+      · -- in range
+        rw [if_neg h1]
+        have h0' : a ≤ ((p + k * k : Nat) : Rat) := not_lt.mp h0
+        have h1' : ((p + k * k : Nat) : Rat) < (a :: t).getLast (List.cons_ne_nil a t) := not_le.mp h1
+        have hmem := getLast_mem_tail a t _ h0' h1'
+        have hlk : lead ((p + k * k : Nat) : Rat) t < t.length := lead_lt_length _ t _ hmem (le_of_lt h1')
+        have hlm : lead (mu2 p k) t' < t'.length := hmu _ (mu2_le_one p k)
+        rw [search_eq_lead a t _ bk hbk hlk]
+        simp only []
+        rw [search_eq_lead a' t' _ bmu hbmu hlm]
+        simp only []
+        rw [touch_ok sh _ _ i j k _ _ (by simpa using hlk) (by simpa using hlm) hi hj (by omega)]
+        simp only []
+        rw [ih (k + 1) _ _ (by omega) (hbk' _ (le_refl _)) (hbmu' _ (le_refl _))]
+        simp only []
+        have hsome : kzSpec n (a :: t) (a' :: t') i j p k =
+            some ⟨i, j, k, p + k * k, lead ((p + k * k : Nat) : Rat) t, lead (mu2 p k) t', hw n k⟩ := by
+          unfold kzSpec
+          rw [classify_cons, if_pos ⟨h0', h1'⟩]
+          simp
+        rw [hsome]
+
+/-! ### `mapM` in `Except` -/
+
+theorem mapM_ok {α β : Type} (f : α → Except Fault β) (g : α → β) (l : List α)
+    (h : ∀ x ∈ l, f x = .ok (g x)) : l.mapM f = .ok (l.map g) := by
+  induction l with
+  | nil => rfl
+  | cons x xs ih =>
+    rw [List.mapM_cons, h x (List.mem_cons_self ..), ih (fun y hy => h y (List.mem_cons_of_mem _ hy))]
+    rfl
+
+/-- value of a successful row (`[]` for a faulting one) -/
+def okOr (r : Except Fault (List Contrib)) : List Contrib :=
+  match r with
+  | .ok v => v
+  | .error _ => []
+
+theorem mapM_ok_inv {α : Type} (f : α → Except Fault (List Contrib)) (l : List α) (r : List (List Contrib))
+    (h : l.mapM f = .ok r) : (∀ x ∈ l, f x = .ok (okOr (f x))) ∧ r = l.map (fun x => okOr (f x)) := by
+  induction l generalizing r with
+  | nil =>
+    have : r = [] := by cases h; rfl
+    simp [this]
+  | cons x xs ih =>
+    rw [List.mapM_cons] at h
+    cases hx : f x with
+    | error e => rw [hx] at h; cases h
+    | ok v =>
+      rw [hx] at h
+      cases hxs : xs.mapM f with
+      | error e => rw [hxs] at h; cases h
+      | ok vs =>
+        rw [hxs] at h
+        have hr : r = v :: vs := by cases h; rfl
+        obtain ⟨h1, h2⟩ := ih vs hxs
+        constructor
+        · intro y hy
+          rcases List.mem_cons.mp hy with rfl | hy
+          · rw [hx]; rfl
+          · exact h1 y hy
+        · rw [hr, h2]; simp [hx, okOr]
+
+/-! ### accumulators are additive over the contribution list -/
+
+/-- generic accumulator: `Σ h c` over the contributions of bin `(b, m)` -/
+def acc {M : Type} [AddCommMonoid M] (h : Contrib → M) (cs : List Contrib) (b m : Nat) : M :=
+  ((cs.filter (inBin b m)).map h).sum
+
+theorem cnt_eq_acc (cs : List Contrib) (b m : Nat) : cnt cs b m = acc (fun c => c.w) cs b m := rfl
+theorem wsum_eq_acc (F : Nat → Nat → Nat → Rat) (cs : List Contrib) (b m : Nat) :
+    wsum F cs b m = acc (fun c => (c.w : Rat) * F c.i c.j c.k) cs b m := rfl
+
+section
+variable {M : Type} [AddCommMonoid M] (h : Contrib → M)
+
+theorem acc_append (l1 l2 : List Contrib) (b m : Nat) :
+    acc h (l1 ++ l2) b m = acc h l1 b m + acc h l2 b m := by
+  simp [acc, List.filter_append]
+
+theorem acc_flatten (ls : List (List Contrib)) (b m : Nat) :
+    acc h ls.flatten b m = (ls.map (fun l => acc h l b m)).sum := by
+  induction ls with
+  | nil => simp [acc]
+  | cons l ls ih => simp [List.flatten_cons, acc_append, ih]
+
+/-- contribution of one optional cell -/
+def cell (o : Option Contrib) (b m : Nat) : M :=
+  match o with
+  | some c => if inBin b m c then h c else 0
+  | none => 0
+
+theorem acc_filterMap {α : Type} (f : α → Option Contrib) (l : List α) (b m : Nat) :
+    acc h (l.filterMap f) b m = (l.map (fun x => cell h (f x) b m)).sum := by
+  induction l with
+  | nil => simp [acc]
+  | cons x xs ih =>
+    rw [List.filterMap_cons]
+    cases hx : f x with
+    | none =>
+      rw [List.map_cons, List.sum_cons, hx, ih]
+      simp [cell]
+    | some c =>
+      have : c :: xs.filterMap f = [c] ++ xs.filterMap f := rfl
+      simp only [this, acc_append, ih, List.map_cons, List.sum_cons, hx]
+      congr 1
+      by_cases hb : inBin b m c <;> simp [acc, cell, hb]
+
+theorem sum_filter_map (p : Nat → Bool) (g : Nat → M) (l : List Nat) :
+    ((l.filter p).map g).sum = (l.map (fun i => if p i then g i else 0)).sum := by
+  induction l with
+  | nil => simp
+  | cons x xs ih =>
+    by_cases hp : p x <;> simp [hp, ih]
+
+/-- **sum over any assignment of rows to threads = sequential sum** -/
+theorem sum_by_thread (g : Nat → M) (n T : Nat) (assign : Nat → Nat) (hT : ∀ i < n, assign i < T) :
+    ((List.range T).map (fun t => (((List.range n).filter (fun i => assign i == t)).map g).sum)).sum =
+      ((List.range n).map g).sum := by
+  simp only [sum_filter_map, list_sum_range]
+  rw [Finset.sum_comm]
+  apply Finset.sum_congr rfl
+  intro i hi
+  rw [Finset.mem_range] at hi
+  simp only [beq_iff_eq]
+  rw [Finset.sum_ite_eq]
+  simp [hT i hi]
+
+end
+
+/-! ### threads -/
+
+theorem threadContribs_spec (row : Nat → Except Fault (List Contrib)) (g : Nat → List Contrib) (n : Nat)
+    (assign : Nat → Nat) (t : Nat) (hrow : ∀ i < n, row i = .ok (g i)) :
+    threadContribs row n assign t =
+      .ok ((((List.range n).filter (fun i => assign i == t)).map g).flatten) := by
+  unfold threadContribs
+  rw [mapM_ok row g _ (fun i hi => hrow i (List.mem_range.mp (List.mem_filter.mp hi).1))]
+  rfl
+
+theorem allThreads_spec (row : Nat → Except Fault (List Contrib)) (g : Nat → List Contrib) (n T : Nat)
+    (assign : Nat → Nat) (hrow : ∀ i < n, row i = .ok (g i)) (hT : ∀ i < n, assign i < T) :
+    allThreads row n T assign =
+      .ok ((List.range T).map (fun t => (((List.range n).filter (fun i => assign i == t)).map g).flatten)) := by
+  unfold allThreads
+  have hall : (List.range n).all (fun i => decide (assign i < T)) = true := by
+    rw [List.all_eq_true]
+    intro i hi
+    simpa using hT i (List.mem_range.mp hi)
+  rw [if_pos hall]
+  exact mapM_ok _ _ _ (fun t _ => threadContribs_spec row g n assign t hrow)
+
+theorem accT_threads {M : Type} [AddCommMonoid M] (h : Contrib → M) (g : Nat → List Contrib) (n T : Nat)
+    (assign : Nat → Nat) (hT : ∀ i < n, assign i < T) (b m : Nat) :
+    (((List.range T).map (fun t => (((List.range n).filter (fun i => assign i == t)).map g).flatten)).map
+        (fun cs => acc h cs b m)).sum =
+      acc h ((List.range n).map g).flatten b m := by
+  rw [List.map_map, acc_flatten, List.map_map]
+  simp only [Function.comp_def]
+  have := sum_by_thread (fun i => acc h (g i) b m) n T assign hT
+  rw [← this]
+  congr 1
+  apply List.map_congr_left
+  intro t _
+  simp only [acc_flatten, List.map_map, Function.comp_def]
+
+/-! ### rows of `bin_kmu` -/
+
+def colSpec (n : Nat) (ek em : List Rat) (i j : Nat) : List Contrib :=
+  (List.range (n / 2 + 1)).filterMap (kzSpec n ek em i j (sq (fold n i) + sq (fold n j)))
+
+def rowSpec (n : Nat) (ek em : List Rat) (i : Nat) : List Contrib :=
+  ((List.range n).map (colSpec n ek em i)).flatten
+
+/-- mu edges with at least one bin whose last edge is at least 1 contain every `mu² ≤ 1` -/
+theorem mu_ok (t' : List Rat) (ht : t' ≠ []) (h1 : 1 ≤ t'.getLast ht) :
+    ∀ x : Rat, x ≤ 1 → lead x t' < t'.length :=
+  fun x hx => lead_lt_length x t' _ (List.getLast_mem ht) (le_trans hx h1)
+
+theorem kmuCol_spec (n : Nat) (a : Rat) (t : List Rat) (a' : Rat) (t' : List Rat)
+    (hmu : ∀ x : Rat, x ≤ 1 → lead x t' < t'.length) (i j : Nat) (hi : i < n) (hj : j < n) :
+    kmuCol n (a :: t) (a' :: t') ⟨n, n, n / 2 + 1⟩ i j = .ok (colSpec n (a :: t) (a' :: t') i j) := by
+  unfold kmuCol colSpec
+  rw [kzLoop_spec n a t a' t' ⟨n, n, n / 2 + 1⟩ i j _ hmu hi hj (n / 2 + 1) 0 0 0 (by simp)
+    (Nat.zero_le _) (Nat.zero_le _), List.range_eq_range']
+
+theorem kmuRow_spec (n : Nat) (a : Rat) (t : List Rat) (a' : Rat) (t' : List Rat)
+    (hmu : ∀ x : Rat, x ≤ 1 → lead x t' < t'.length) (i : Nat) (hi : i < n) :
+    kmuRow n (a :: t) (a' :: t') ⟨n, n, n / 2 + 1⟩ i = .ok (rowSpec n (a :: t) (a' :: t') i) := by
+  unfold kmuRow rowSpec
+  rw [mapM_ok _ (colSpec n (a :: t) (a' :: t') i) _
+    (fun j hj => kmuCol_spec n a t a' t' hmu i j hi (List.mem_range.mp hj))]
+  rfl
+
+theorem sq_natCast (k : Nat) : sq (k : Int) = k * k := by simp [sq]
+
+theorem clsKmu_natAbs (ek em : List Rat) (a b c : Int) :
+    clsKmu ek em a b c = clsKmu ek em a b (c.natAbs : Int) := by
+  unfold clsKmu sq
+  simp only [Int.natAbs_natCast]
+
+/-- a half-mesh cell contributes to `(b, m)` exactly when the full-mesh convention classifies the
+mode `(fold i, fold j, k)` there -/
+theorem cell_kzSpec {M : Type} [AddCommMonoid M] (h : Contrib → M) (n : Nat) (ek em : List Rat)
+    (i j k b m : Nat) :
+    cell h (kzSpec n ek em i j (sq (fold n i) + sq (fold n j)) k) b m =
+      if clsKmu ek em (fold n i) (fold n j) (k : Int) = some (b, m) then
+        h ⟨i, j, k, sq (fold n i) + sq (fold n j) + k * k, b, m, hw n k⟩ else 0 := by
+  unfold kzSpec clsKmu
+  rw [sq_natCast]
+  simp only [Int.natAbs_natCast]
+  obtain hcl | ⟨bk, hcl⟩ : classify ek ((sq (fold n i) + sq (fold n j) + k * k : Nat) : Rat) = none ∨
+      ∃ bk, classify ek ((sq (fold n i) + sq (fold n j) + k * k : Nat) : Rat) = some bk := by
+    cases classify ek ((sq (fold n i) + sq (fold n j) + k * k : Nat) : Rat) <;> simp
+  · simp only [hcl, cell]
+    simp
+  · simp only [hcl, cell, inBin, Option.some.injEq, Prod.mk.injEq, Bool.and_eq_true, beq_iff_eq]
+    by_cases hc : bk = b ∧ lead (mu2 (sq (fold n i) + sq (fold n j)) k) em.tail = m
+    · obtain ⟨rfl, rfl⟩ := hc
+      simp
+    · rw [if_neg hc, if_neg hc]
+
+/-- the sequential mode count of the loops equals the full-mesh count -/
+theorem seq_counts (n : Nat) (hn : 1 ≤ n) (ek em : List Rat) (b m : Nat) :
+    ((List.range n).map (fun i => cnt (rowSpec n ek em i) b m)).sum = fullCount n (clsKmu ek em) b m := by
+  unfold fullCount fullSumNat
+  have inner : ∀ a b' : Int,
+      natSum ((fftfreq n).map fun c => if clsKmu ek em a b' c = some (b, m) then 1 else 0) =
+        ((List.range (n / 2 + 1)).map (fun k =>
+          hw n k * (if clsKmu ek em a b' (k : Int) = some (b, m) then 1 else 0))).sum := by
+    intro a b'
+    have := hermitian_sum (R := Nat) n hn (fun k => if clsKmu ek em a b' (k : Int) = some (b, m) then 1 else 0)
+    simp only [Nat.cast_id] at this
+    rw [this, natSum_eq]
+    simp only [← clsKmu_natAbs]
+  simp only [inner, natSum_eq]
+  rw [← fold_eq_fftfreq]
+  simp only [List.map_map, Function.comp_def]
+  congr 1
+  apply List.map_congr_left
+  intro i _
+  rw [cnt_eq_acc, rowSpec, acc_flatten, List.map_map]
+  congr 1
+  apply List.map_congr_left
+  intro j _
+  simp only [Function.comp_def, colSpec, acc_filterMap, cell_kzSpec]
+  congr 1
+  apply List.map_congr_left
+  intro k _
+  by_cases hc : clsKmu ek em (fold n i) (fold n j) (k : Int) = some (b, m) <;> simp [hc]
+
+/-! ### `bin_kppi` -/
+
+/-- what the convention says about the half-mesh cell `(i, j, k)` of a column in `k_perp` bin `b` -/
+def piSpec (n : Nat) (ep : List Rat) (i j p b k : Nat) : Option Contrib :=
+  match ep.getLast? with
+  | some pl =>
+    if ((k * k : Nat) : Rat) < pl then some ⟨i, j, k, p, b, lead ((k * k : Nat) : Rat) ep.tail, hw n k⟩
+    else none
+  | none => none
+
+theorem kcast_mono {k k' : Nat} (h : k ≤ k') : ((k * k : Nat) : Rat) ≤ ((k' * k' : Nat) : Rat) := by
+  have : k * k ≤ k' * k' := Nat.mul_le_mul h h
+  exact_mod_cast this
+
+theorem piSpec_cons (n : Nat) (a' : Rat) (t' : List Rat) (i j p b k : Nat) :
+    piSpec n (a' :: t') i j p b k =
+      if ((k * k : Nat) : Rat) < (a' :: t').getLast (List.cons_ne_nil a' t') then
+        some ⟨i, j, k, p, b, lead ((k * k : Nat) : Rat) t', hw n k⟩ else none := by
+  unfold piSpec
+  rw [List.getLast?_eq_some_getLast (List.cons_ne_nil a' t')]
+  simp
+
+/-- the inner loop of `bin_kppi` (range guard first, then the carried search) -/
+theorem piLoop_spec (n : Nat) (a' : Rat) (t' : List Rat) (ht' : t' ≠ []) (sh : Shape) (nb : Nat)
+    (i j p b : Nat) (hi : i < sh.s0) (hj : j < sh.s1) (hb : b < nb) :
+    ∀ fuel k bpi, k + fuel ≤ sh.s2 → bpi ≤ lead ((k * k : Nat) : Rat) t' →
+      piLoop n (a' :: t') sh nb i j p b fuel k bpi =
+        .ok ((List.range' k fuel).filterMap (piSpec n (a' :: t') i j p b)) := by
+  intro fuel
+  induction fuel with
+  | zero => intro k bpi _ _; simp [piLoop]
+  | succ fuel ih =>
+    intro k bpi hk hbpi
+    rw [List.range'_succ, List.filterMap_cons]
+    simp only [piLoop]
+    rw [getE_last (a' :: t') (List.cons_ne_nil a' t')]
+    simp only []
+    by_cases h1 : (a' :: t').getLast (List.cons_ne_nil a' t') ≤ ((k * k : Nat) : Rat)
+    · rw [if_pos h1]
+      have hall : ∀ k' ∈ k :: List.range' (k + 1) fuel, piSpec n (a' :: t') i j p b k' = none := by
+        intro k' hk'
+        have hge : k ≤ k' := by
+          rcases List.mem_cons.mp hk' with h | h
+          · omega
+          · have := (List.mem_range'_1.mp h).1; omega
+        rw [piSpec_cons, if_neg]
+        exact not_lt.mpr (le_trans h1 (kcast_mono hge))
+      have : (k :: List.range' (k + 1) fuel).filterMap (piSpec n (a' :: t') i j p b) = [] :=
+        List.filterMap_eq_nil_iff.mpr hall
+      rw [List.filterMap_cons] at this
+      rw [this]
+    · rw [if_neg h1]
+      have h1' := not_le.mp h1
+      have hmem : (a' :: t').getLast (List.cons_ne_nil a' t') ∈ t' := by
+        rw [List.getLast_cons ht']
+        exact List.getLast_mem _
+      have hl : lead ((k * k : Nat) : Rat) t' < t'.length := lead_lt_length _ t' _ hmem (le_of_lt h1')
+      rw [search_eq_lead a' t' _ bpi hbpi hl]
+      simp only []
+      rw [touch_ok sh _ _ i j k _ _ hb (by simpa using hl) hi hj (by omega)]
+      simp only []
+      rw [ih (k + 1) _ (by omega) (lead_mono (kcast_mono (Nat.le_succ k)) t')]
+      simp only []
+      rw [piSpec_cons, if_pos h1']
+
+def colSpecPi (n : Nat) (ek ep : List Rat) (i j : Nat) : List Contrib :=
+  match classify ek ((sq (fold n i) + sq (fold n j) : Nat) : Rat) with
+  | some b => (List.range (n / 2 + 1)).filterMap (piSpec n ep i j (sq (fold n i) + sq (fold n j)) b)
+  | none => []
+
+def rowSpecPi (n : Nat) (ek ep : List Rat) (i : Nat) : List Contrib :=
+  ((List.range n).map (colSpecPi n ek ep i)).flatten
+
+theorem kppiCol_spec (n : Nat) (a : Rat) (t : List Rat) (a' : Rat) (t' : List Rat) (ht' : t' ≠ [])
+    (i j : Nat) (hi : i < n) (hj : j < n) :
+    kppiCol n (a :: t) (a' :: t') ⟨n, n, n / 2 + 1⟩ i j = .ok (colSpecPi n (a :: t) (a' :: t') i j) := by
+  unfold kppiCol colSpecPi
+  simp only []
+  rw [getE_zero, classify_cons]
+  simp only []
+  by_cases h0 : ((sq (fold n i) + sq (fold n j) : Nat) : Rat) < a
+  · rw [if_pos h0, if_neg]
+    intro hc; exact absurd h0 (not_lt.mpr hc.1)
+  · rw [if_neg h0, getE_last (a :: t) (List.cons_ne_nil a t)]
+    simp only []
+    by_cases h1 : (a :: t).getLast (List.cons_ne_nil a t) ≤ ((sq (fold n i) + sq (fold n j) : Nat) : Rat)
+    · rw [if_pos h1, if_neg]
+      intro hc; exact absurd hc.2 (not_lt.mpr h1)
+    · have h0' := not_lt.mp h0
+      have h1' := not_le.mp h1
+      rw [if_neg h1, if_pos ⟨h0', h1'⟩]
+      have hmem := getLast_mem_tail a t _ h0' h1'
+      have hlk := lead_lt_length _ t _ hmem (le_of_lt h1')
+      rw [search_eq_lead a t _ 0 (Nat.zero_le _) hlk]
+      simp only []
+      rw [piLoop_spec n a' t' ht' ⟨n, n, n / 2 + 1⟩ _ i j _ _ hi hj (by simpa using hlk) (n / 2 + 1) 0 0
+        (by simp) (Nat.zero_le _), List.range_eq_range']
+
+theorem kppiRow_spec (n : Nat) (a : Rat) (t : List Rat) (a' : Rat) (t' : List Rat) (ht' : t' ≠ [])
+    (i : Nat) (hi : i < n) :
+    kppiRow n (a :: t) (a' :: t') ⟨n, n, n / 2 + 1⟩ i = .ok (rowSpecPi n (a :: t) (a' :: t') i) := by
+  unfold kppiRow rowSpecPi
+  rw [mapM_ok _ (colSpecPi n (a :: t) (a' :: t') i) _
+    (fun j hj => kppiCol_spec n a t a' t' ht' i j hi (List.mem_range.mp hj))]
+  rfl
+
+theorem clsKppi_natAbs (ek ep : List Rat) (a b c : Int) :
+    clsKppi ek ep a b c = clsKppi ek ep a b (c.natAbs : Int) := by
+  unfold clsKppi sq
+  simp only [Int.natAbs_natCast]
+
+theorem acc_colSpecPi {M : Type} [AddCommMonoid M] (h : Contrib → M) (n : Nat) (ek ep : List Rat)
+    (i j b m : Nat) :
+    acc h (colSpecPi n ek ep i j) b m =
+      ((List.range (n / 2 + 1)).map (fun (k : Nat) =>
+        if clsKppi ek ep (fold n i) (fold n j) (k : Int) = some (b, m) then
+          h ⟨i, j, k, sq (fold n i) + sq (fold n j), b, m, hw n k⟩ else 0)).sum := by
+  unfold colSpecPi clsKppi
+  obtain hcl | ⟨bk, hcl⟩ : classify ek ((sq (fold n i) + sq (fold n j) : Nat) : Rat) = none ∨
+      ∃ bk, classify ek ((sq (fold n i) + sq (fold n j) : Nat) : Rat) = some bk := by
+    cases classify ek ((sq (fold n i) + sq (fold n j) : Nat) : Rat) <;> simp
+  · simp only [hcl]
+    simp [acc]
+  · simp only [hcl, acc_filterMap]
+    congr 1
+    apply List.map_congr_left
+    intro k _
+    unfold piSpec
+    rw [sq_natCast]
+    obtain hl | ⟨pl, hl⟩ : ep.getLast? = none ∨ ∃ pl, ep.getLast? = some pl := by
+      cases ep.getLast? <;> simp
+    · simp only [hl, cell]
+      simp
+    · simp only [hl]
+      by_cases hk : ((k * k : Nat) : Rat) < pl
+      · simp only [hk, ↓reduceIte, cell, inBin, Option.some.injEq, Prod.mk.injEq, Bool.and_eq_true, beq_iff_eq]
+        by_cases hc : bk = b ∧ lead ((k * k : Nat) : Rat) ep.tail = m
+        · obtain ⟨rfl, rfl⟩ := hc
+          simp
+        · rw [if_neg hc, if_neg hc]
+      · simp only [hk, ↓reduceIte, cell]
+        simp
+
+theorem seq_counts_pi (n : Nat) (hn : 1 ≤ n) (ek ep : List Rat) (b m : Nat) :
+    ((List.range n).map (fun i => cnt (rowSpecPi n ek ep i) b m)).sum = fullCount n (clsKppi ek ep) b m := by
+  unfold fullCount fullSumNat
+  have inner : ∀ a b' : Int,
+      natSum ((fftfreq n).map fun c => if clsKppi ek ep a b' c = some (b, m) then 1 else 0) =
+        ((List.range (n / 2 + 1)).map (fun k =>
+          hw n k * (if clsKppi ek ep a b' (k : Int) = some (b, m) then 1 else 0))).sum := by
+    intro a b'
+    have := hermitian_sum (R := Nat) n hn (fun k => if clsKppi ek ep a b' (k : Int) = some (b, m) then 1 else 0)
+    simp only [Nat.cast_id] at this
+    rw [this, natSum_eq]
+    simp only [← clsKppi_natAbs]
+  simp only [inner, natSum_eq]
+  rw [← fold_eq_fftfreq]
+  simp only [List.map_map, Function.comp_def]
+  congr 1
+  apply List.map_congr_left
+  intro i _
+  rw [cnt_eq_acc, rowSpecPi, acc_flatten, List.map_map]
+  congr 1
+  apply List.map_congr_left
+  intro j _
+  simp only [Function.comp_def, acc_colSpecPi]
+  congr 1
+  apply List.map_congr_left
+  intro k _
+  by_cases hc : clsKppi ek ep (fold n i) (fold n j) (k : Int) = some (b, m) <;> simp [hc]
+
+/-! ### bounds and weights of the accumulated cells -/
+
+theorem mem_filterMap_range {f : Nat → Option Contrib} {N : Nat} {c : Contrib}
+    (h : c ∈ (List.range N).filterMap f) : ∃ k, k < N ∧ f k = some c := by
+  obtain ⟨k, hk, hf⟩ := List.mem_filterMap.mp h
+  exact ⟨k, List.mem_range.mp hk, hf⟩
+
+theorem classify_bound (a : Rat) (t : List Rat) (x : Rat) (b : Nat) (h : classify (a :: t) x = some b) :
+    b + 1 < (a :: t).length := by
+  rw [classify_cons] at h
+  split at h
+  · rename_i hc
+    cases h
+    have hmem := getLast_mem_tail a t x hc.1 hc.2
+    have := lead_lt_length x t _ hmem (le_of_lt hc.2)
+    simpa using this
+  · cases h
+
+theorem rowSpec_bounds (n : Nat) (a : Rat) (t : List Rat) (a' : Rat) (t' : List Rat)
+    (hmu : ∀ x : Rat, x ≤ 1 → lead x t' < t'.length) (i : Nat) (hi : i < n) (c : Contrib)
+    (hc : c ∈ rowSpec n (a :: t) (a' :: t') i) :
+    c.b + 1 < (a :: t).length ∧ c.m + 1 < (a' :: t').length ∧ c.i < n ∧ c.j < n ∧ c.k < n / 2 + 1 ∧
+      c.w = hw n c.k := by
+  unfold rowSpec at hc
+  obtain ⟨l, hl, hcl⟩ := List.mem_flatten.mp hc
+  obtain ⟨j, hj, rfl⟩ := List.mem_map.mp hl
+  obtain ⟨k, hk, hf⟩ := mem_filterMap_range hcl
+  unfold kzSpec at hf
+  split at hf
+  · rename_i b hb
+    cases hf
+    refine ⟨classify_bound a t _ b hb, ?_, hi, List.mem_range.mp hj, hk, rfl⟩
+    have := hmu _ (mu2_le_one (sq (fold n i) + sq (fold n j)) k)
+    simpa using this
+  · cases hf
+
+theorem rowSpecPi_bounds (n : Nat) (a : Rat) (t : List Rat) (a' : Rat) (t' : List Rat) (ht' : t' ≠ [])
+    (i : Nat) (hi : i < n) (c : Contrib) (hc : c ∈ rowSpecPi n (a :: t) (a' :: t') i) :
+    c.b + 1 < (a :: t).length ∧ c.m + 1 < (a' :: t').length ∧ c.i < n ∧ c.j < n ∧ c.k < n / 2 + 1 ∧
+      c.w = hw n c.k := by
+  unfold rowSpecPi at hc
+  obtain ⟨l, hl, hcl⟩ := List.mem_flatten.mp hc
+  obtain ⟨j, hj, rfl⟩ := List.mem_map.mp hl
+  unfold colSpecPi at hcl
+  split at hcl
+  · rename_i b hb
+    obtain ⟨k, hk, hf⟩ := mem_filterMap_range hcl
+    rw [piSpec_cons] at hf
+    split at hf
+    · rename_i hlt
+      cases hf
+      refine ⟨classify_bound a t _ b hb, ?_, hi, List.mem_range.mp hj, hk, rfl⟩
+      have hmem : (a' :: t').getLast (List.cons_ne_nil a' t') ∈ t' := by
+        rw [List.getLast_cons ht']; exact List.getLast_mem _
+      have := lead_lt_length _ t' _ hmem (le_of_lt hlt)
+      simpa using this
+    · cases hf
+  · simp at hcl
+
+theorem mem_le_sum (l : List Nat) (x : Nat) (h : x ∈ l) : x ≤ l.sum := by
+  induction l with
+  | nil => simp at h
+  | cons y ys ih =>
+    rw [List.sum_cons]
+    rcases List.mem_cons.mp h with rfl | h
+    · omega
+    · have := ih h; omega
+
+theorem hw_pos (n k : Nat) : 1 ≤ hw n k := by unfold hw; split <;> omega
+
+/-- an empty bin has an empty weighted sum (weights are at least 1) -/
+theorem wsum_zero_of_cnt_zero (F : Nat → Nat → Nat → Rat) (cs : List Contrib) (hw1 : ∀ c ∈ cs, 1 ≤ c.w)
+    (b m : Nat) (h : cnt cs b m = 0) : wsum F cs b m = 0 := by
+  have hnil : cs.filter (inBin b m) = [] := by
+    by_contra hne
+    obtain ⟨c, hc⟩ := List.exists_mem_of_ne_nil _ hne
+    have hcw := hw1 c (List.mem_filter.mp hc).1
+    have : c.w ≤ cnt cs b m := by
+      unfold cnt
+      rw [natSum_eq]
+      exact mem_le_sum _ _ (List.mem_map.mpr ⟨c, hc, rfl⟩)
+    omega
+  unfold wsum
+  rw [hnil]
+  rfl
 
 end AbacusVerif.Binning
